@@ -71,7 +71,7 @@ def make_plans(svcs, vidx, tier, seed):
     for s in svcs:
         tab = M.table(svcs, s["name"])
         refs = [[vidx[ds["name"]], ds["methods"].index(m) + 1] for ds, m in tab]
-        plans.append({"svc": vidx[s["name"]], "methods": refs, "max": 1, "vals": 0, "raw": True})
+        plans.append({"svc": vidx[s["name"]], "methods": refs, "max": 1, "vals": 0, "raw": True, "rawknown": True})
         meta.append({"kind": "single", "svc": s["name"]})
     rnd = random.Random(seed)
     for tname in ("Svc", "Derived"):
@@ -81,7 +81,7 @@ def make_plans(svcs, vidx, tier, seed):
         def pick(pred, j):
             c = [(ds, m) for ds, m in tab if pred(ds, m)]
             return c[j % len(c)] if c else None
-        nmix = 1 if tier == "quick" else 4
+        nmix = 1 if tier == "quick" else 3
         base = rnd.randrange(1000)
         for j in range(nmix):
             jj = base + j
@@ -98,7 +98,7 @@ def make_plans(svcs, vidx, tier, seed):
                 if x not in seen:
                     seen.append(x)
             refs = [[vidx[ds["name"]], ds["methods"].index(m) + 1] for ds, m in seen]
-            plans.append({"svc": vidx[tname], "methods": refs, "max": 3, "vals": 1, "raw": True})
+            plans.append({"svc": vidx[tname], "methods": refs, "max": 3, "vals": 1, "raw": True, "rawknown": False})
             meta.append({"kind": "seq", "svc": tname, "mix": [m["name"] for _, m in seen]})
     return plans, meta
 
@@ -300,7 +300,7 @@ def run_lab(ctx, u, cases, plan_meta, opts_list, tag):
         c = lab.cases[name]
         obs = None
         if c.rc != 0:
-            obs = "thriftgo rejected it: " + c.stderr.strip()[-300:]
+            obs = "thriftgo fails (exit %d): %s" % (c.rc, (c.stderr.strip().splitlines() or [""])[0][:300])
         elif name in failing:
             obs = "generated code does not compile: " + "; ".join(
                 ln.strip() for ln in out.splitlines() if ln.startswith("g/%s/" % name))[:400]
@@ -331,7 +331,10 @@ def run_lab(ctx, u, cases, plan_meta, opts_list, tag):
             calls = []
             for c in tc["calls"]:
                 if "raw" in c:
-                    calls.append({"raw": c["raw"], "seq": c["seq"], "mt": c["mt"], "body": c["body"]})
+                    rc = {"raw": c["raw"], "seq": c["seq"], "mt": c["mt"], "body": c["body"]}
+                    if c["out"].get("k") in ("val", "void", "exc", "other"):
+                        rc["out"] = c["out"]     # a known method: the handler runs
+                    calls.append(rc)
                 else:
                     calls.append({"m": c["m"], "args": c["args"], "out": c["out"], "lag": c["lag"]})
             scen.append({"id": len(scen), "op": "rpc", "case": cid, "s": "X2", "x": {"svc": tc["svc"], "calls": calls}})
@@ -361,10 +364,29 @@ def run_lab(ctx, u, cases, plan_meta, opts_list, tag):
         hi = 0
         for k, c in enumerate(tc["calls"], 1):
             if "raw" in c:
-                shape.append("raw-unknown")
                 obs = (rets.get(k) or {}).get("res") or {}
                 if obs.get("k") != c["exp"]["k"] and not what:
                     what, detail = "result", {"call": k, "observed": obs, "expected": c["exp"]}
+                if not c["known"]:
+                    shape.append("raw-unknown")
+                    continue
+                ds, m = tab[c["raw"]]
+                pert = ("dropreq" if c["out"]["k"] == "argerr" else
+                        "unk" if any(t.get("id") == 99 for t in c["body"]) else "rev")
+                shape.append("raw-%s %s a%d t%d inh%d %s" % (pert, method_kind(m), len(m["argl"]), len(m["throws"]),
+                                                             depth_of[ds["name"]], c["out"]["k"]))
+                if c["out"]["k"] == "argerr":
+                    continue
+                if hi < len(hs):
+                    h = hs[hi]
+                    hi += 1
+                    t = {"n": "struct", "s": m["args"]}
+                    if (h["ds"], h["m"]) != (ds["name"], m["name"]) and not what:
+                        what, detail = "dispatch", {"call": k, "method": c["raw"], "handler": [h["ds"], h["m"]]}
+                    elif c02.norm(u.sc, t, h["seen"]) != c02.norm(u.sc, t, c["seen"]) and not what:
+                        what, detail = "arguments", {"call": k, "method": c["raw"], "observed": h["seen"], "expected": c["seen"]}
+                elif not what:
+                    what, detail = "handler-not-invoked", {"call": k, "method": c["raw"]}
                 continue
             ds, m = tab[c["m"]]
             shape.append("%s a%d t%d inh%d %s%s" % (method_kind(m), len(m["argl"]), len(m["throws"]), depth_of[ds["name"]],
@@ -392,14 +414,33 @@ def run_lab(ctx, u, cases, plan_meta, opts_list, tag):
         if i in rej and not what:
             at = reach.get(i)
             tr = rows[i]["ev"]
-            what, detail = "trace-rejected", {"matched_events": (at - 1) if at else None,
-                                              "next_event": tr[at - 1] if at and at - 1 < len(tr) else None}
-        cls = "%s | %s" % (pm["kind"], " ; ".join(shape))
+            nxt = tr[at - 1] if at and at - 1 < len(tr) else None
+            # the request the connection was busy with when the trace left the specification
+            kreq = sum(1 for e in tr[:at or 0] if e["e"] in ("cw", "raw"))
+            if nxt and nxt["e"] in ("srh", "sra", "h", "sw", "pe"):
+                kreq = sum(1 for e in tr[:at or 0] if e["e"] == "srh") + (0 if nxt["e"] != "srh" else 1)
+            what, detail = "trace-rejected", {"matched_events": (at - 1) if at else None, "next_event": nxt,
+                                              "call": max(1, min(kreq, len(shape))) if at else None,
+                                              "event": nxt["e"] if nxt else None}
+        if pm["kind"] == "single":
+            cls = "single | " + shape[0]
+        else:
+            # sequences: per call the result kind, inheritance depth, outcome and lag (argument/throws counts are
+            # covered by the single-call classes)
+            short = []
+            for sh in shape:
+                w = sh.split()
+                short.append(sh if w[0].startswith("raw") else " ".join([w[0]] + w[3:]))
+            cls = "seq | " + " ; ".join(short)
         ctx.count(1, cls)
         if what:
             first = shape[detail.get("call", 1) - 1] if isinstance(detail, dict) and detail.get("call") else shape[0]
-            ctx.violation({"check": "C08.rpc", "kind": what, "shape": first.replace(" lag", "")},
-                          {"case": cid, "opts": opts_of[cid], "svc": tc["svc"], "calls": tc["calls"]},
+            cls_v = {"check": "C08.rpc", "kind": what, "shape": first.replace(" lag", "")}
+            if what == "trace-rejected" and detail.get("event"):
+                cls_v["event"] = detail["event"]
+            ctx.violation(cls_v,
+                          {"case": cid, "opts": opts_of[cid], "svc": tc["svc"], "calls": tc["calls"], "plan": tc["plan"],
+                           "plan_kind": pm["kind"]},
                           {"detail": detail, "events": events, "trace_accepted": i not in rej},
                           {"calls": [c.get("exp") for c in tc["calls"]]},
                           "generated client/processor deviate from the Rpc specification: " + what)
@@ -430,7 +471,8 @@ def sample_cases(ctx, cases, plan_meta, budget_single, budget_seq):
         def k1(c):
             x = c["calls"][0]
             o = x.get("out", {})
-            return (c["plan"], x.get("m", "raw"), o.get("k", ""), o.get("var", ""), o.get("i", 0), "also" in o)
+            pert = ("unk" if any(t.get("id") == 99 for t in x["body"]) else "rev") if "raw" in x else ""
+            return (c["plan"], x.get("m") or "raw:" + x["raw"], pert, o.get("k", ""), o.get("var", ""), o.get("i", 0), "also" in o)
         single = _stratified(rnd, single, k1, budget_single)
     if len(seqs) > budget_seq:
         seqs = _stratified(rnd, seqs, lambda c: (c["plan"], len(c["calls"]), c["calls"][0].get("m", "raw"),
@@ -446,7 +488,14 @@ def run(ctx, args):
     u = build_universe(ctx)
     u.probe_obs = {}
     plans, plan_meta = make_plans(u.svcs, u.vidx, ctx.tier, ctx.seed)
-    cases = gen_cases(ctx, u.tsc, u.tsvcs, plans, "RpcGen")
+    cache = os.environ.get("C08_CASE_CACHE")   # development aid only: reuse the TLC cases of an earlier run (same tier/seed)
+    if cache and os.path.exists(cache):
+        cases = json.load(open(cache))
+        vlib.log("DEV: %d TLC cases loaded from %s" % (len(cases), cache))
+    else:
+        cases = gen_cases(ctx, u.tsc, u.tsvcs, plans, "RpcGen")
+        if cache:
+            json.dump(cases, open(cache, "w"))
     # dedupe (the same history can be reached through different interleavings only if it differs in `lag`)
     seen = set()
     uniq = []
@@ -464,7 +513,10 @@ def run(ctx, args):
         "exception together with a result": any("also" in x.get("out", {}) for _, x in flat),
         "another error": any(x.get("out", {}).get("k") == "other" for _, x in flat),
         "an undeclared exception type": any(x.get("out", {}).get("var") == "undeclared" for _, x in flat),
-        "unknown method": any("raw" in x for _, x in flat),
+        "unknown method": any("raw" in x and not x["known"] for _, x in flat),
+        "known method with reordered arguments, as raw bytes": any("raw" in x and x["known"] and x["out"]["k"] in ("val", "void")
+                                                                   for _, x in flat),
+        "required argument missing": any("raw" in x and x["out"]["k"] == "argerr" for _, x in flat),
         "lagging oneway": any(x.get("lag") for _, x in flat),
         "sequence of 3": any(len(c["calls"]) == 3 for c in cases),
         "oneway followed by a call": any(len(c["calls"]) >= 2 and c["calls"][0].get("exp", {}).get("k") == "none"
@@ -486,7 +538,7 @@ def run(ctx, args):
     run_lab(ctx, u, cases, plan_meta, opts[:1], "main")
     if thorough:
         B = 3
-        sub = sample_cases(ctx, cases, plan_meta, 2000, 2000)
+        sub = sample_cases(ctx, cases, plan_meta, 1500, 1500)
         for off in range(1, len(opts), B):
             run_lab(ctx, u, sub, plan_meta, opts[off:off + B], "o%d" % off)
     ctx.extra_cov["probe_observations"] = u.probe_obs
@@ -506,5 +558,13 @@ def run(ctx, args):
 
 
 def replay(ctx, path):
+    """re-run the one connection of a replay file against the current tree"""
     rp = json.load(open(path))
-    raise vlib.MachineryError("replay: re-run `bin/check C08`; the case is %s" % json.dumps(rp.get("case"))[:600])
+    case = rp.get("case") or {}
+    if "calls" not in case:
+        raise vlib.MachineryError("replay: %s is not a connection case (class %s)" % (path, rp.get("class")))
+    u = build_universe(ctx)
+    u.probe_obs = {}
+    tc = {"plan": 1, "svc": case["svc"], "calls": case["calls"]}
+    run_lab(ctx, u, [tc], [{"kind": case.get("plan_kind", "single")}], [case.get("opts") or []], "replay")
+    return ctx.finish(rule="replay of one recorded connection case", trusted=["see the C08 registry entry"])
